@@ -763,6 +763,56 @@ theorem scanP_noPercent (t rest : Str) (h : '%' ∉ t) :
     simp only [List.cons_append, scanP_lit_cons c hc, ih h.2]
     cases scanP .text rest <;> simp [lits]
 
+/-! ### make_param cache -/
+
+theorem makeParams_eq [BEq κ] [LawfulBEq κ] (occ cache : List (κ × γ))
+    (hocc : ∀ a ∈ occ, ∀ b ∈ occ, a.1 = b.1 → a.2 = b.2)
+    (hcache : ∀ a ∈ cache, ∀ b ∈ occ, a.1 = b.1 → a.2 = b.2) :
+    makeParams cache occ = occ.map (·.2) := by
+  induction occ generalizing cache with
+  | nil => rfl
+  | cons o r ih =>
+    obtain ⟨k, c⟩ := o
+    simp only [makeParams, List.map_cons]
+    have hr : ∀ a ∈ r, ∀ b ∈ r, a.1 = b.1 → a.2 = b.2 := fun a ha b hb => hocc a (by simp [ha]) b (by simp [hb])
+    cases hl : cache.lookup k with
+    | some c' =>
+      have hmem : (k, c') ∈ cache := by
+        clear ih hcache
+        induction cache with
+        | nil => simp at hl
+        | cons p cache ih2 =>
+          obtain ⟨pk, pv⟩ := p
+          by_cases hk : k = pk
+          · subst hk; simp [List.lookup_cons] at hl; subst hl; simp
+          · have hb : (k == pk) = false := by simp [hk]
+            simp only [List.lookup_cons, hb] at hl
+            exact List.mem_cons_of_mem _ (ih2 hl)
+      have hc : c' = c := hcache (k, c') hmem (k, c) (by simp) rfl
+      simp only [hc]
+      rw [ih cache hr (fun a ha b hb => hcache a ha b (by simp [hb]))]
+    | none =>
+      simp only []
+      rw [ih (cache ++ [(k, c)]) hr]
+      intro a ha b hb hab
+      simp only [List.mem_append, List.mem_singleton] at ha
+      rcases ha with ha | rfl
+      · exact hcache a ha b (by simp [hb]) hab
+      · exact hocc (k, c) (by simp) b (by simp [hb]) hab
+
+theorem keyComponent_inj (a b : PathItem) (h : keyComponent a = keyComponent b) : a = b := by
+  cases a <;> cases b <;> simp_all [keyComponent]
+
+theorem pathKey_inj (a b : List PathItem) (h : pathKey a = pathKey b) : a = b := by
+  induction a generalizing b with
+  | nil => cases b <;> simp_all [pathKey]
+  | cons x a ih =>
+    cases b with
+    | nil => simp [pathKey] at h
+    | cons y b =>
+      simp only [pathKey, List.map_cons, List.cons.injEq] at h
+      rw [keyComponent_inj x y h.1, ih b (by simpa [pathKey] using h.2)]
+
 /-! ### hexadecimal blobs -/
 
 theorem unhex_hex (n : Nat) (h : n < 16) : unhexDigit (hexDigit n) = some n := by
